@@ -132,17 +132,22 @@ Section Pres.
   Variable present : hid -> bool.
   Variable T : topo.
   Variable Q : hcall -> Prop.
+  (* an invariant of the OS state that every hook keeps when it is called with a call satisfying Q *)
+  Variable I : W -> Prop.
+  Hypothesis HI : forall c w, Q c -> t_thissystem T = true -> I w -> I (snd (os c w)).
 
-  Definition pres {X} (f : st W -> X * st W) : Prop :=
-    forall s, Forall Q (s_trace s) -> Forall Q (s_trace (snd (f s))).
+  Definition Inv (s : st W) : Prop := Forall Q (s_trace s) /\ I (s_w s).
+  Definition pres {X} (f : st W -> X * st W) : Prop := forall s, Inv s -> Inv (snd (f s)).
 
   (* a call only has to satisfy Q when it can actually reach the OS *)
   Definition Q' (c : hcall) : Prop := t_thissystem T = true -> Q c.
   Lemma pres_invoke c : Q' c -> pres (invoke W os heap T c).
   Proof.
-    intros Hc s Hs. unfold invoke. destruct (t_thissystem T) eqn:TS.
-    - destruct (os c (s_w s)) as [r w']. cbn [snd s_trace]. apply Forall_app. split; [exact Hs|]. constructor; [now apply Hc|constructor].
-    - cbn [snd s_trace]. exact Hs.
+    intros Hc s [Hs Hw]. unfold invoke. destruct (t_thissystem T) eqn:TS.
+    - pose proof (HI c (s_w s) (Hc TS) eq_refl Hw) as H1.
+      destruct (os c (s_w s)) as [r w']. cbn [snd] in *. split; cbn [s_trace s_w]; [|exact H1].
+      apply Forall_app. split; [exact Hs|]. constructor; [exact (Hc TS)|constructor].
+    - cbn [snd]. split; [exact Hs|exact Hw].
   Qed.
   Lemma pres_fail e : pres (fail W e).
   Proof. intros s Hs. exact Hs. Qed.
@@ -540,12 +545,18 @@ Section Runs.
   Variable T : topo.
   Notation RUN := (run W os heap present T).
 
+  Lemma run_inv (Q : hcall -> Prop) (I : W -> Prop) a w :
+    (forall c w, Q c -> t_thissystem T = true -> I w -> I (snd (os c w))) ->
+    (forall c, In c (calls_of T a) -> Q c) -> I w ->
+    Forall Q (s_trace (snd (RUN a w))) /\ I (s_w (snd (RUN a w))).
+  Proof.
+    intros HI H Hw. unfold run. apply (pres_run_api W os heap present T Q I HI a).
+    - intros c Hc _. now apply H.
+    - split; [constructor|exact Hw].
+  Qed.
   Lemma run_trace (Q : hcall -> Prop) a w :
     (forall c, In c (calls_of T a) -> Q c) -> Forall Q (s_trace (snd (RUN a w))).
-  Proof.
-    intros H. unfold run. apply (pres_run_api W os heap present T Q a); [|constructor].
-    intros c Hc _. now apply H.
-  Qed.
+  Proof. intros H. apply (run_inv Q (fun _ => True) a w); auto. Qed.
 
   Lemma run_only_legal a w c : In c (s_trace (snd (RUN a w))) -> legal_call T c = true.
   Proof.
@@ -645,9 +656,8 @@ Section L.
   Variable T : topo.
   Variable tpid : Z.
   Variable nr_cpus max_numnodes : N.
-  Variable garbage : bset.
   Hypothesis Hfin : inf (t_cnodeset T) = false.
-  Notation LOS := (linux_os KW kernel T tpid nr_cpus max_numnodes garbage).
+  Notation LOS := (linux_os KW kernel T tpid nr_cpus max_numnodes).
   Definition kinv (w : lw KW) : Prop := Forall (fun k => klegal T k = true) (l_ktrace w).
 
   Lemma kc_inv c w : klegal T c = true -> kinv w -> kinv (snd (kc KW kernel c w)).
@@ -820,10 +830,10 @@ Section L.
     destruct (kc KW kernel (K_get_mempolicy true max_numnodes MPOL_F_ADDR) w) as [r w1]. cbn [snd] in H.
     destruct (k_rc r <? 0)%Z; [exact H|]. now apply IH.
   Qed.
-  Lemma keeps_get_area_membind len : keeps (linux_get_area_membind KW kernel T max_numnodes garbage len).
+  Lemma keeps_get_area_membind len : keeps (linux_get_area_membind KW kernel T max_numnodes len).
   Proof.
     intros w Hw. unfold linux_get_area_membind.
-    pose proof (keeps_area_pages (pages_of len) (AA 0 0 false false true (area_gmask0 max_numnodes garbage)) w Hw) as H.
+    pose proof (keeps_area_pages (pages_of len) (AA 0 0 false false true area_gmask0) w Hw) as H.
     destruct (area_pages KW kernel max_numnodes (pages_of len) _ w) as [[e a] w1]. cbn [snd] in H.
     destruct e; [exact H|]. destruct (aa_mixed a); [exact H|]. destruct (hwloc_policy (aa_lp a)); exact H.
   Qed.
@@ -833,4 +843,146 @@ Section L.
     destruct (kc KW kernel (K_move_pages (N.of_nat (pages_of len))) w) as [r w1]. cbn [snd] in H. destruct (k_rc r <? 0)%Z; exact H.
   Qed.
 
+
+  (* ---- what hwloc_linux_get_area_membind reports ---- *)
+  (* the answers the kernel gives to n successive per-page get_mempolicy calls (stops at the first failure) *)
+  Fixpoint page_answers (n : nat) (k : KW) : list kres :=
+    match n with
+    | O => []
+    | S n' => let (r, k') := kernel (K_get_mempolicy true max_numnodes MPOL_F_ADDR) k in
+              if (k_rc r <? 0)%Z then [r] else r :: page_answers n' k'
+    end.
+  Definition answer_local (r : kres) : bool := lp_is_local (page_lp max_numnodes r).
+  Definition answer_mask (r : kres) : bset := below_max max_numnodes (k_set r).
+
+  Lemma area_pages_spec n : forall a w e a' w',
+    area_pages KW kernel max_numnodes n a w = ((e, a'), w') -> e = None ->
+    aa_full a' = aa_full a || existsb answer_local (page_answers n (l_k w)) /\
+    (aa_full a' = false -> aa_gmask a' = fold_left bs_union (map answer_mask (page_answers n (l_k w))) (aa_gmask a)).
+  Proof.
+    induction n as [|n IH]; intros a w e a' w' H He; cbn [area_pages page_answers] in *.
+    - injection H as <- <- <-. cbn [existsb map fold_left]. rewrite orb_false_r. auto.
+    - unfold kc in H. destruct (kernel (K_get_mempolicy true max_numnodes MPOL_F_ADDR) (l_k w)) as [r k'] eqn:Ek.
+      destruct (k_rc r <? 0)%Z eqn:Er.
+      + injection H as <- <- <-. discriminate He.
+      + apply IH in H; [|exact He]. cbn [aa_full aa_gmask l_k] in H. destruct H as [H1 H2].
+        cbn [existsb map fold_left]. unfold answer_local at 1. split.
+        * rewrite H1. now rewrite orb_assoc.
+        * intros Hf. rewrite H2 by exact Hf. rewrite Hf in H1. symmetry in H1.
+          apply orb_false_iff in H1 as [H1 _]. rewrite H1. reflexivity.
+  Qed.
+
+  (* the reported nodeset: the topology nodeset as soon as one page is DEFAULT/LOCAL, otherwise exactly the
+     union of the masks the kernel returned for the pages - no stale bits *)
+  Lemma get_area_membind_reports len w :
+    hr_rc (fst (linux_get_area_membind KW kernel T max_numnodes len w)) = 0%Z ->
+    hr_set (fst (linux_get_area_membind KW kernel T max_numnodes len w)) =
+      (if existsb answer_local (page_answers (pages_of len) (l_k w)) then t_nodeset T
+       else fold_left bs_union (map answer_mask (page_answers (pages_of len) (l_k w))) bs_empty).
+  Proof.
+    unfold linux_get_area_membind.
+    destruct (area_pages KW kernel max_numnodes (pages_of len) (AA 0 0 false false true area_gmask0) w) as [[e a'] w'] eqn:E.
+    destruct e as [e|]; [cbn; discriminate|].
+    apply area_pages_spec in E; [|reflexivity]. cbn [aa_full aa_gmask orb] in E. destruct E as [E1 E2].
+    intros Hrc. rewrite <- E1.
+    assert (G : (if aa_full a' then t_nodeset T else aa_gmask a') =
+                (if aa_full a' then t_nodeset T else fold_left bs_union (map answer_mask (page_answers (pages_of len) (l_k w))) bs_empty)).
+    { destruct (aa_full a'); [reflexivity|]. now apply E2. }
+    destruct (aa_mixed a'); [exact G|]. destruct (hwloc_policy (aa_lp a')); [exact G|]. cbn in Hrc. discriminate.
+  Qed.
+
+  (* ---- every Linux hook keeps the kernel-mask invariant when called with a legal set ---- *)
+  Definition needs_set (h : hid) : bool :=
+    match h with
+    | H_set_thisproc_cpubind | H_set_thisthread_cpubind | H_set_proc_cpubind | H_set_thread_cpubind
+    | H_set_thisproc_membind | H_set_thisthread_membind | H_set_proc_membind | H_set_area_membind | H_alloc_membind => true
+    | _ => false
+    end.
+  Definition good_call (c : hcall) : bool :=
+    legal_call T c && (if needs_set (hc_id c) then match hc_set c with Some _ => true | None => false end else true).
+
+  Ltac los := unfold linux_os, enosys_if_pid, the_set, pid_of; cbn [hc_id hc_set hc_flags hc_who hc_policy hc_len].
+  Ltac cpufacts H := unfold good_call, legal_call in H; cbn [hc_id hc_set hid_kind complete_of needs_set] in H;
+    apply andb_true_iff in H; destruct H as [H _]; apply andb_true_iff in H; destruct H as [He Hs]; apply negb_true_iff in He.
+
+  Lemma los_set_thisproc_cpubind who x p f len : good_call (HC H_set_thisproc_cpubind who (Some x) p f len) = true -> keeps (LOS (HC H_set_thisproc_cpubind who (Some x) p f len)).
+  Proof. intros H. cpufacts H. los. now apply keeps_set_pid. Qed.
+  Lemma los_set_thisthread_cpubind who x p f len : good_call (HC H_set_thisthread_cpubind who (Some x) p f len) = true -> keeps (LOS (HC H_set_thisthread_cpubind who (Some x) p f len)).
+  Proof. intros H. cpufacts H. los. intros w Hw. destruct (negb (tpid =? 0)%Z); [exact Hw|]. now apply keeps_set_tid. Qed.
+  Lemma los_set_proc_cpubind who x p f len : good_call (HC H_set_proc_cpubind who (Some x) p f len) = true -> keeps (LOS (HC H_set_proc_cpubind who (Some x) p f len)).
+  Proof. intros H. cpufacts H. los. intros w Hw. destruct (flag HWLOC_CPUBIND_THREAD f); [now apply keeps_set_tid|now apply keeps_set_pid]. Qed.
+  Lemma los_set_thread_cpubind who x p f len : good_call (HC H_set_thread_cpubind who (Some x) p f len) = true -> keeps (LOS (HC H_set_thread_cpubind who (Some x) p f len)).
+  Proof. intros H. cpufacts H. los. intros w Hw. destruct (negb (tpid =? 0)%Z); [exact Hw|]. now apply keeps_set_tid. Qed.
+  Lemma los_set_thisthread_membind who x p f len : good_call (HC H_set_thisthread_membind who (Some x) p f len) = true -> keeps (LOS (HC H_set_thisthread_membind who (Some x) p f len)).
+  Proof. intros H. cpufacts H. los. now apply keeps_set_thisthread_membind. Qed.
+  Lemma los_set_area_membind who x p f len : good_call (HC H_set_area_membind who (Some x) p f len) = true -> keeps (LOS (HC H_set_area_membind who (Some x) p f len)).
+  Proof. intros H. cpufacts H. los. now apply keeps_set_area_membind. Qed.
+  Lemma los_alloc_membind who x p f len : good_call (HC H_alloc_membind who (Some x) p f len) = true -> keeps (LOS (HC H_alloc_membind who (Some x) p f len)).
+  Proof. intros H. cpufacts H. los. now apply keeps_alloc_membind. Qed.
+
+  Lemma los_get_thisproc_cpubind who s p f len : keeps (LOS (HC H_get_thisproc_cpubind who s p f len)).
+  Proof. los. apply keeps_get_pid. Qed.
+  Lemma los_get_thisthread_cpubind who s p f len : keeps (LOS (HC H_get_thisthread_cpubind who s p f len)).
+  Proof. los. intros w Hw. destruct (negb (tpid =? 0)%Z); [exact Hw|]. now apply keeps_get_tid. Qed.
+  Lemma los_get_proc_cpubind who s p f len : keeps (LOS (HC H_get_proc_cpubind who s p f len)).
+  Proof. los. intros w Hw. destruct (flag HWLOC_CPUBIND_THREAD f); [now apply keeps_get_tid|now apply keeps_get_pid]. Qed.
+  Lemma los_get_thread_cpubind who s p f len : keeps (LOS (HC H_get_thread_cpubind who s p f len)).
+  Proof. los. intros w Hw. destruct (negb (tpid =? 0)%Z); [exact Hw|]. now apply keeps_get_tid. Qed.
+  Lemma los_get_thisproc_last who s p f len : keeps (LOS (HC H_get_thisproc_last who s p f len)).
+  Proof. los. apply keeps_get_pid_last. Qed.
+  Lemma los_get_thisthread_last who s p f len : keeps (LOS (HC H_get_thisthread_last who s p f len)).
+  Proof.
+    los. intros w Hw. destruct (negb (tpid =? 0)%Z); [exact Hw|].
+    pose proof (kc_inv K_getcpu w eq_refl Hw) as H. destruct (kc KW kernel K_getcpu w) as [r w1]. cbn [snd] in H.
+    destruct (0 <=? k_rc r)%Z; [exact H|now apply keeps_get_last].
+  Qed.
+  Lemma los_get_proc_last who s p f len : keeps (LOS (HC H_get_proc_last who s p f len)).
+  Proof. los. intros w Hw. destruct (flag HWLOC_CPUBIND_THREAD f); [now apply keeps_get_last|now apply keeps_get_pid_last]. Qed.
+  Lemma los_get_thisthread_membind who s p f len : keeps (LOS (HC H_get_thisthread_membind who s p f len)).
+  Proof. los. apply keeps_get_thisthread_membind. Qed.
+  Lemma los_get_area_membind who s p f len : keeps (LOS (HC H_get_area_membind who s p f len)).
+  Proof. los. apply keeps_get_area_membind. Qed.
+  Lemma los_get_area_memlocation who s p f len : keeps (LOS (HC H_get_area_memlocation who s p f len)).
+  Proof. los. apply keeps_get_area_memlocation. Qed.
+  Lemma los_alloc who s p f len : keeps (LOS (HC H_alloc who s p f len)).
+  Proof. los. apply keeps_alloc. Qed.
+  Lemma los_never_installed h who s p f len :
+    In h [H_set_thisproc_membind; H_get_thisproc_membind; H_set_proc_membind; H_get_proc_membind] -> keeps (LOS (HC h who s p f len)).
+  Proof. intros [<-|[<-|[<-|[<-|[]]]]]; los; intros w Hw; exact Hw. Qed.
+
+  Lemma linux_os_keeps c : good_call c = true -> keeps (LOS c).
+  Proof.
+    intros H. destruct c as [h who s p f len].
+    assert (Hs : needs_set h = true -> exists x, s = Some x).
+    { intros Hn. unfold good_call in H. cbn [hc_id hc_set] in H. rewrite Hn in H. apply andb_true_iff in H as [_ H].
+      destruct s as [x|]; [now exists x|discriminate]. }
+    destruct h;
+    try (destruct (Hs eq_refl) as [x ->]);
+    first [ now apply los_set_thisproc_cpubind | now apply los_set_thisthread_cpubind | now apply los_set_proc_cpubind
+          | now apply los_set_thread_cpubind | now apply los_set_thisthread_membind | now apply los_set_area_membind
+          | now apply los_alloc_membind
+          | apply los_get_thisproc_cpubind | apply los_get_thisthread_cpubind | apply los_get_proc_cpubind | apply los_get_thread_cpubind
+          | apply los_get_thisproc_last | apply los_get_thisthread_last | apply los_get_proc_last | apply los_get_thisthread_membind
+          | apply los_get_area_membind | apply los_get_area_memlocation | apply los_alloc
+          | apply los_never_installed; cbn [In]; auto 6 ].
+  Qed.
 End L.
+
+Lemma calls_good T a c : In c (calls_of T a) -> good_call T c = true.
+Proof.
+  intros H. unfold good_call. rewrite (calls_legal T a c H). cbn [andb].
+  destruct a; cbn [calls_of] in H; brk H; subst c; reflexivity.
+Qed.
+
+(* the composition: bind.c dispatch over the Linux hooks - only legal masks reach the kernel *)
+Lemma linux_run_kernel_masks_legal KW kernel T tpid nr_cpus max_numnodes heap a (w : lw KW) :
+  inf (t_cnodeset T) = false -> kinv KW T w ->
+  kinv KW T (s_w (snd (linux_run KW kernel T tpid nr_cpus max_numnodes heap a w))).
+Proof.
+  intros Hf Hw. unfold linux_run.
+  apply (run_inv (lw KW) (linux_os KW kernel T tpid nr_cpus max_numnodes) heap linux_present T
+           (fun c => good_call T c = true) (kinv KW T) a w).
+  - intros c w0 Hc _ Hw0. now apply linux_os_keeps.
+  - intros c Hc. now apply (calls_good T a).
+  - exact Hw.
+Qed.
